@@ -65,10 +65,15 @@ def guarded(fn, resolver, near_stands=True):
             else:
                 orig_bad(key, where, msg, sample)
 
-        def check(cond, key, where, msg, what=None, sample=None, text=False):
+        def check(cond, key, where, msg, what=None, sample=None, text=False, semantic=False):
             if cond:
                 ctx.ok(what or key, sample)
                 return True
+            if semantic:
+                # a clause about what ANY correct spelling must contain (a necessary condition of the behaviour): it has evidence
+                # of its own on a function organised differently from the transcription
+                orig_bad(key, where, msg, sample)
+                return False
             if text and os.environ.get("VERIF_NO_GUARD") != "1":
                 # a check that reads spelling: on a function whose every component has a counterpart but differs by more than
                 # a token it has no evidence of its own
